@@ -1,3 +1,4 @@
+#include <iostream>
 // C17 (SpVecGF2) and the SpVecFP half of C18: explicit-state breadth-first search over the REAL classes.
 //
 // State     = the concrete private vectors of R registers (read and restored with -fno-access-control).
@@ -330,6 +331,9 @@ static std::map<std::string, std::string> parse_kv(const std::string &s) {
 
 int main(int argc, char **argv) {
     vr::Args A(argc, argv);
+#ifdef PARMCB_LOGGING
+    std::cout.setstate(std::ios_base::badbit);      // built against a config.hpp with PARMCB_LOGGING on: the library chats on std::cout (harness output uses stdio)
+#endif
     vr::Runner R;
     if (A.has("deadline-s")) R.deadline_abs = vr::now_s() + A.getd("deadline-s", 0);
     uint64_t max_states = (uint64_t) A.geti("max-states", 5000000);
